@@ -228,6 +228,6 @@ def thorough_case(draw):
 
 
 PARTS = [
-    HypPart("replicate", lambda tier: case() if tier == "quick" else thorough_case(), oracle, {"quick": 2500, "thorough": 25000}),
+    HypPart("replicate", lambda tier: case() if tier == "quick" else thorough_case(), oracle, {"quick": 5000, "thorough": 40000}),
     FuzzPart("coverage-guided-replicate", "replicate", runs=5000),
 ]
